@@ -147,6 +147,7 @@ structure St where
   metas : List Meta := []
   extras : List Key := []
   drops : List (Nat × Bool) := []          -- (index, drop the signer flag?)
+  grants : List (Nat × Bool) := []         -- (index, grant the signer flag?)
   ix : Option (List Nat) := none           -- instruction data
   run : Option (Option SetVal) := none     -- last run: the set `process` saw, if it was reached
 
@@ -155,8 +156,11 @@ def acctOf (m : Meta) : Acct := { key := m.key, signer := m.signer, writable := 
 def applyDrop (accts : List Acct) (d : Nat × Bool) : List Acct :=
   accts.mapIdx (fun i a => if i = d.1 then (if d.2 then { a with signer := false } else { a with writable := false }) else a)
 
+def applyGrant (accts : List Acct) (d : Nat × Bool) : List Acct :=
+  accts.mapIdx (fun i a => if i = d.1 then (if d.2 then { a with signer := true } else { a with writable := true }) else a)
+
 def accounts (st : St) : List Acct :=
-  st.drops.foldl applyDrop (st.metas.map acctOf) ++ st.extras.map (fun k => { key := k, signer := false, writable := false })
+  st.grants.foldl applyGrant (st.drops.foldl applyDrop (st.metas.map acctOf)) ++ st.extras.map (fun k => { key := k, signer := false, writable := false })
 
 def parseDisc (s : String) : Option (List Nat) := do
   let d ← parseHex s
@@ -194,6 +198,13 @@ def step (st : St) (toks : List String) : St × String :=
     | some _, some i =>
       if i < st.metas.length ∧ (f = "s" ∨ f = "w") then
         ({ st with drops := st.drops ++ [(i, f == "s")], run := none }, "ok")
+      else bad
+    | _, _ => bad
+  | ["grant", i, f] =>
+    match st.client, smallDec i 2 with
+    | some _, some i =>
+      if i < st.metas.length ∧ (f = "s" ∨ f = "w") then
+        ({ st with grants := st.grants ++ [(i, f == "s")], run := none }, "ok")
       else bad
     | _, _ => bad
   | ["ix", darg, a, b, c, d] =>
